@@ -128,6 +128,13 @@ func walkDecisionInl(start *ssa.BasicBlock, assign map[string]bool, atomize Atom
 				b = b.Succs[0]
 			case *ssa.If:
 				cond, neg := normCond(x.Cond)
+				if subst != nil {
+					if w, ok := subst[cond]; ok {
+						if _, isC := w.(*ssa.Const); isC {
+							cond = w // a boolean parameter bound to a constant
+						}
+					}
+				}
 				// constant condition
 				if cb, ok := constBool(cond); ok {
 					if cb != neg {
@@ -139,7 +146,8 @@ func walkDecisionInl(start *ssa.BasicBlock, assign map[string]bool, atomize Atom
 				}
 				// a comparison whose operands are constants once the parameters of an inlined callee are bound
 				if bo, ok := cond.(*ssa.BinOp); ok && subst != nil {
-					cv := func(v ssa.Value) (int64, bool) {
+					var cvd func(v ssa.Value, d int) (int64, bool)
+					cvd = func(v ssa.Value, d int) (int64, bool) {
 						for i := 0; i < 6; i++ {
 							if w, ok := subst[v]; ok {
 								v = w
@@ -147,8 +155,54 @@ func walkDecisionInl(start *ssa.BasicBlock, assign map[string]bool, atomize Atom
 							}
 							break
 						}
-						return constInt(v)
+						if k, ok := constInt(v); ok {
+							return k, true
+						}
+						if d > 8 {
+							return 0, false
+						}
+						// small non-negative arithmetic over bound values, phis resolved along the path walked so far
+						switch x := v.(type) {
+						case *ssa.Phi:
+							if w := resolveAlong(x, path); w != ssa.Value(x) {
+								return cvd(w, d+1)
+							}
+						case *ssa.Convert:
+							if k, ok := cvd(x.X, d+1); ok && k >= 0 {
+								return k, true
+							}
+						case *ssa.ChangeType:
+							return cvd(x.X, d+1)
+						case *ssa.BinOp:
+							xa, ok1 := cvd(x.X, d+1)
+							ya, ok2 := cvd(x.Y, d+1)
+							if !ok1 || !ok2 || xa < 0 || ya < 0 || xa > 1<<40 || ya > 1<<40 {
+								return 0, false
+							}
+							switch x.Op {
+							case token.ADD:
+								return xa + ya, true
+							case token.MUL:
+								if xa < 1<<20 && ya < 1<<20 {
+									return xa * ya, true
+								}
+							case token.QUO:
+								if ya != 0 {
+									return xa / ya, true
+								}
+							case token.REM:
+								if ya != 0 {
+									return xa % ya, true
+								}
+							case token.SUB:
+								if xa >= ya {
+									return xa - ya, true
+								}
+							}
+						}
+						return 0, false
 					}
+					cv := func(v ssa.Value) (int64, bool) { return cvd(v, 0) }
 					if xv, ok1 := cv(bo.X); ok1 {
 						if yv, ok2 := cv(bo.Y); ok2 {
 							var res, known bool
